@@ -537,7 +537,7 @@ def csnap(spaces):
 
 def chist(ops, steps):
     return ctuple([clist([cop(o) for o in ops]),
-                   clist([ctuple([cnat(st["out"]), csnap(st["spaces"])]) for st in steps])])
+                   clist([ctuple([cnat(st["out"]), "None" if st.get("skipped") else "(Some %s)" % csnap(st["spaces"])]) for st in steps])])
 
 
 CASE_T = "list op * list obs"
@@ -602,7 +602,6 @@ def frame_oracle(ops, steps):
     Returns None or (step index, text)."""
     prev = {}
     for i, (op, st) in enumerate(zip(ops, steps)):
-        cur = defined_of(st["spaces"])
         exp = copy.deepcopy(prev)
         k = op[0]
         if st["out"] == ACCEPTED:
@@ -618,6 +617,10 @@ def frame_oracle(ops, steps):
                 exp[op[1]]["cells"].pop(op[2], None)
             elif k == "DelRef":
                 exp[op[1]]["refs"].pop(op[2], None)
+        if st.get("skipped"):
+            prev = exp
+            continue
+        cur = defined_of(st["spaces"])
         if cur != exp:
             diff = [(s_, cur.get(s_), exp.get(s_)) for s_ in sorted(set(cur) | set(exp)) if cur.get(s_) != exp.get(s_)]
             return i, "defined members after %r (outcome %s) are not the ones the history defined: (space, actual, expected) = %r" % (op, st["out"], diff[:3])
@@ -668,14 +671,19 @@ def suite_mro(tier, rng, out):
     out.samples.append({"suite": "mro", "graph": cases[min(40, len(cases) - 1)]["graph"], "impl": res[min(40, len(cases) - 1)]["impl"]})
 
 
-def run_histories(tag, hists, out, label):
-    """driver + (T) + (P) for a list of op lists; returns number of tie-ok cases"""
+def run_histories(tag, hists, out, label, observe_from=None):
+    """driver + (T) + (P) for a list of op lists; observe_from(ops) = index of the first op after which the
+    model is looked at (default: all)"""
     cases = [{"kind": "hist", "ops": ops} for ops in hists]
+    if observe_from is not None:
+        for c in cases:
+            k = observe_from(c["ops"])
+            c["observe"] = [i >= k for i in range(len(c["ops"]))]
     res = fw.run_driver("c03", cases)
     terms = []
     keep = []
     for ci, (c, r) in enumerate(zip(cases, res)):
-        broken = next((i for i, st in enumerate(r["steps"]) if st["spaces"] is None), None)
+        broken = next((i for i, st in enumerate(r["steps"]) if st["spaces"] is None and not st.get("skipped")), None)
         if broken is not None:
             out.p_failures.append({"case": c["ops"][:broken + 1], "suite": label,
                                    "detail": "the model cannot be observed any more after the last operation: %s" % r["steps"][broken]["exc"],
@@ -699,7 +707,7 @@ def run_histories(tag, hists, out, label):
         for j, i in enumerate(bad):
             ops, steps = cases[i]["ops"], res[i]["steps"]
             if j in badp:
-                k = next((n for n, st in enumerate(steps) if py_oracle(st["spaces"])), len(steps) - 1)
+                k = next((n for n, st in enumerate(steps) if st["spaces"] is not None and py_oracle(st["spaces"])), len(steps) - 1)
                 out.p_failures.append({"case": ops[:k + 1], "suite": label,
                                        "detail": "after op %d %r the implementation's members/bases differ from the re-derivation of its own defined members: %s"
                                                  % (k, ops[k], py_oracle(steps[k]["spaces"]) or "(evaluation / Coq check_snapshot)"),
@@ -734,7 +742,7 @@ def nontrivial(ops):
 
 def suite_hist(tier, rng, out):
     gen = Gen(rng)
-    n = 260 if tier == "quick" else 5000
+    n = 260 if tier == "quick" else 3000
     hists = []
     for _ in range(n):
         hists.append(gen.history(rng.randint(2, 7), rng.randint(5, 25)))
@@ -755,16 +763,20 @@ def suite_exh(tier, rng, out):
         hists = exhaustive(3, 2, ("cells", "bases"), filtered)
         desc = "all ordered-base DAGs on <= 3 spaces x enabled cells/base edit sequences of length <= 2"
     else:
-        hists = exhaustive(4, 3, ("cells",), filtered) + exhaustive(4, 2, ("cells", "bases", "refs"), filtered) \
-            + exhaustive(3, 3, ("cells", "bases"), filtered)
+        hists = exhaustive(4, 3, ("cells",), filtered) + exhaustive(4, 2, ("cells", "bases"), filtered) \
+            + exhaustive(4, 2, ("refs",), filtered) + exhaustive(3, 3, ("cells", "bases"), filtered) \
+            + exhaustive(3, 2, ("cells", "refs", "bases"), filtered)
         desc = ("all ordered-base DAGs on <= 4 spaces x enabled cells edit sequences of length <= 3, "
-                "x cells/refs/base edit sequences of length <= 2; <= 3 spaces x cells/base edits of length <= 3")
+                "x cells/base edit sequences of length <= 2, x reference edit sequences of length <= 2; "
+                "<= 3 spaces x cells/base edits of length <= 3 and x cells/refs/base edits of length <= 2")
     seen, uniq = set(), []
     for h in hists:
         c = canon(h)
         if c not in seen:
             seen.add(c); uniq.append(h)
-    run_histories("C03exh", uniq, out, "exh")
+    # the DAG construction prefix is observed once, at its end
+    run_histories("C03exh", uniq, out, "exh",
+                  observe_from=lambda ops: max(0, next((i for i, o in enumerate(ops) if o[0] != "NewSpace"), len(ops)) - 1))
     out.distinct_nontrivial += len([h for h in uniq if nontrivial(h)])
     out.distribution["exh"] = {"histories": len(uniq), "what": desc, "draws_filtered_by_defect_trigger": dict(sorted(filtered.items()))}
     out.extra["exhaustive"] = True
